@@ -66,6 +66,10 @@ EXPLANATION += (
     ' Round 7: every cell entered into the data-release cell table was first found absent from the whole table (R-GUARD/unique-insert).'
 )
 
+EXPLANATION += (
+    ' Round 9: module-level memo tables are keyed by every parameter their values are computed from (R-MEMO/key-complete).'
+)
+
 RULE_TEXT = (
     "one obligation per constructor path, per attribute-assignment site, "
     "per mutation candidate, per helper parameter, per accessor x caller, "
